@@ -74,7 +74,7 @@ Fixpoint digits_fuel (fuel : nat) (n : N) : str :=
            else digits_fuel f (n / 10) ++ [ch_0 + n mod 10]
   end.
 
-Definition digits_of (n : N) : str := digits_fuel (S (N.size_nat n)) n.
+Definition digits_of (n : N) : str := digits_fuel (S (N.to_nat (N.size n))) n.
 
 (** Exactly [k] digits of [r] (leading zeros; the low [k] digits). *)
 Fixpoint pad_digits (k : nat) (r : N) : str :=
@@ -161,5 +161,4 @@ Fixpoint str_eqb (x y : str) : bool :=
   | _, _ => false
   end.
 
-Fixpoint repeat_byte (c : N) (n : nat) : str :=
-  match n with O => [] | S n' => c :: repeat_byte c n' end.
+Definition repeat_byte (c : N) (n : nat) : str := repeat c n.
